@@ -391,6 +391,7 @@ class SymExec:
         self.loop_bound = loop_bound
         self.asserts = []     # (path, block, msg, cond_expr)
         self.finished = []    # paths that reached return
+        self.looped = []      # (path, block) abandoned when a block would be entered more often than the loop bound allows
         self.nfresh = 0
         self.inputs = {}
 
@@ -632,6 +633,7 @@ class SymExec:
             if visits[bname] > self.loop_bound + 1:
                 path.trace.append(bname + " (loop bound reached: path abandoned)")
                 self.truncated = True
+                self.looped.append((path, bname))
                 continue
             b = self.fn.blocks[bname]
             path.trace.append(bname)
@@ -971,3 +973,30 @@ def branch_on(events, tainted, after_index=0):
 
 def calls_on(events, regex):
     return [(i, ev) for i, ev in enumerate(events) if ev[0] == "call" and re.search(regex, ev[2])]
+
+
+def prepare_bin_mir(ctx):
+    """MIR of the GUI binary (src/bin/mstsc-rs.rs) of the snapshot: cargo rustc --bin mstsc-rs --features mstsc-rs -- -Zunpretty=mir."""
+    if "bin_mir" in ctx:
+        return ctx["bin_mir"]
+    src = ctx["src"]
+    tdir = os.path.join(ctx["scratch"], "mirtarget_bin")
+    out = os.path.join(ctx["scratch"], "bin.mir")
+    logf = os.path.join(ctx["logdir"], "mir_dump_bin.log")
+    env = dict(ENV)
+    env["RUSTC_BOOTSTRAP"] = "1"
+    t0 = time.time()
+    with open(out, "w") as fo, open(logf, "w") as fe:
+        p = subprocess.run(["cargo", "rustc", "--offline", "--bin", "mstsc-rs", "--features", "mstsc-rs", "--target-dir", tdir, "--", "-Zunpretty=mir"],
+                           cwd=src, stdout=fo, stderr=fe, env=env, timeout=1200)
+    if p.returncode != 0 or os.path.getsize(out) < 1000:
+        raise Inconclusive("ENCODING-FAILED: MIR dump of the GUI binary failed (rc=%d): %s" % (p.returncode, open(logf).read()[-1500:]))
+    text = open(out).read()
+    ctx["bin_mir_text"] = text
+    saved = dict(CONSTS)              # parse_mir resets the constant table: keep the library's
+    ctx["bin_mir"] = parse_mir(text)
+    CONSTS.clear()
+    CONSTS.update(saved)
+    ctx["steps"].append("MIR dump of the GUI binary: %d functions, %d lines, %.0fs (cargo rustc --bin mstsc-rs --features mstsc-rs -- -Zunpretty=mir)" % (
+        len(ctx["bin_mir"]), text.count("\n"), time.time() - t0))
+    return ctx["bin_mir"]
